@@ -68,6 +68,51 @@ def shared_context_part(ctx):
     ctx.notes["shared_context_schedules"] = n
 
 
+def user_threads_part(ctx):
+    """child contexts opened concurrently by user threads on ONE context: whichever call index each gets, everything recorded inside a
+    context must name THAT context's operation as its parent, ids are pairwise distinct, and the ids handed out are exactly
+    blake2b('<parent>-1..n')"""
+    import random
+    from checks.durable_common import run_campaign, scen_of
+    from harness.interp import op_id
+    rng = random.Random(ctx.seed + 88)
+    st = {"k": "step"}
+    progs = [{"nodes": [{"k": "uthreads", "bodies": [[st, st], [st, st]]}, st]},
+             {"nodes": [st, {"k": "uthreads", "bodies": [[st], [st, st], [st]]}]},
+             {"nodes": [{"k": "child", "body": [{"k": "uthreads", "bodies": [[st], [st]]}]}, st]}]
+    items = [(p, {"seed": rng.randrange(1 << 30), "max_inv": 4, "api_latency": (0.0, 0.05)[k % 2], "strategy": "pct" if k % 2 else "random"})
+             for p in progs for k in range(8 if ctx.quick else 60)]
+    for e in run_campaign(ctx, items):
+        ctx_of = {}      # name of a user-thread context -> id
+        for u in e.backend.stream:
+            nm = u["name"] or ""
+            if u["type"] == "CONTEXT" and ".t" in nm and "/" not in nm.split(".t")[-1]:
+                ctx_of[nm] = u["id"]
+        seen_ids = {}
+        for u in e.backend.stream:
+            nm = u["name"] or ""
+            if ".t" not in nm:
+                continue
+            k2 = (nm, u["type"])
+            if seen_ids.setdefault(u["id"], k2) != k2:
+                ctx.violation("id-collision", f"id {u['id'][:10]}.. used for {seen_ids[u['id']]} and {k2}", scen_of(e))
+                break
+            if "/" in nm.split(".t")[-1]:
+                owner = nm.rsplit("/", 1)[0]
+                if owner in ctx_of and u["parent"] != ctx_of[owner]:
+                    other = next((n for n, i in ctx_of.items() if i == u["parent"]), str(u["parent"])[:10])
+                    ctx.violation("parent-link-wrong", f"{u['action']} of {nm} (inside the context {owner}) names {other} as its parent", scen_of(e))
+                    break
+                if owner in ctx_of:
+                    n = int(nm.rsplit("/", 1)[1])
+                    if u["id"] != op_id(ctx_of[owner], n):
+                        ctx.violation("id-not-structural", f"{nm}: id is not blake2b('<id of {owner}>-{n}')", scen_of(e))
+                        break
+        if e.final not in ("SUCCEEDED",):
+            ctx.violation("user-threads-execution-failed", f"a program whose threads open child contexts on one context ended {e.final}: "
+                                                           f"{[x.get('rep') for r in e.invocations for x in r.events if x['ev'] == 'UThreadError'][:2]}", scen_of(e))
+
+
 def run(ctx):
     run_conc(ctx, invs=["ConcurrencyBound"], oracle_fns=[c08], sweep_kw={"scripts_sets": [[["step", "ok"], ["step", "ok"]]]},
              post=lambda c, ex: seq_part(c),
@@ -76,6 +121,7 @@ def run(ctx):
                         "completion order, in-process resubmission and re-invocation; ids unique per position, stable across invocations. "
                         "(Collision-freeness of blake2b itself is assumed.)")
     shared_context_part(ctx)
+    user_threads_part(ctx)
     from checks import c19 as lockcheck
     ctx.notes["counter_gap_free"] = "per-context counters are OrderedCounter: see C19 (OrderedLock.tla CounterGapFree)"
 
